@@ -28,9 +28,9 @@ REACH = [
 ]
 PLAN = {
     "quick": {"shards": 8, "cases": 42, "timeout_s": 600, "min_evaluations": 9000,
-              "min_counters": {"faults_injected": 9000, "exceptions_recorded": 4500}},
+              "min_counters": {"faults_injected": 9000, "exceptions_recorded": 4500, "suite_run_components_calls": 5000}},
     "thorough": {"shards": 16, "cases": 250, "timeout_s": 3000, "min_evaluations": 100000,
-                 "min_counters": {"faults_injected": 100000}},
+                 "min_counters": {"faults_injected": 100000, "suite_run_components_calls": 7000}},
 }
 
 FAULTS = ("skip", "ce", "cpe", "timeout", "boom", "keyerr", "valerr")
@@ -52,6 +52,8 @@ def directed(tier):
         u = dict(user, opt=[0])
         out.append({"graph": {"nodes": [ds, u], "junk": [], "tag": "f2"}, "entry": {"form": "all"}, "store_skips": False,
                     "observers": [], "placement": "directed-F2"})
+    from vpmon.props import c01
+    out.append({"kind": "suite", "paths": c01.SUITE_QUICK if tier == "quick" else []})
     return out
 
 
@@ -166,6 +168,9 @@ def run_realgraph(spec, ctx):
 def run_case(spec, ctx):
     if spec.get("kind") == "realgraph":
         return run_realgraph(spec, ctx)
+    if spec.get("kind") == "suite":
+        from vpmon.props import c01
+        return c01.run_suite(spec, ctx, ID)
     if not spec.get("enumerate"):
         return run_one(spec, ctx)
     any_nt = False
